@@ -123,6 +123,7 @@ class World {
     uint64_t cost_lo = 200, cost_hi = 3000;
     uint64_t lat_lo = 20000, lat_hi = 200000;
     size_t rxq_cap = 64, canq_cap = 256;
+    uint64_t clock_gran = 1;  // CLOCK_REALTIME as seen by the programs is quantised to this many ns (coarse clock sources exist)
     double can_read0_p = 0;  // cooperative fault point: read() on a CAN socket returns 0 (the talker explicitly retries on 0)
     uint64_t step_budget = 20000000ULL;
     uint64_t call_budget = 100000ULL;
@@ -160,6 +161,7 @@ class World {
     void sched_point();
     void block_on(std::vector<int> wait_fds, uint64_t wake_time = 0);
     uint64_t node_time(int node) const { return now + (uint64_t)nodes[node].clock_offset; }
+    uint64_t node_time_q(int node) const { uint64_t t = node_time(node); return clock_gran > 1 ? t - t % clock_gran : t; }
     int alloc_fd(FdEnt::Kind k);
     FdEnt *fd(int n);
     bool fd_readable(int n);
